@@ -105,7 +105,7 @@ def run_case(ctx, case):
             if text.startswith("\ufeff") and line == 1:
                 dev("valueerror-in-range:leading-bom-line1", "%s at %s" % (api.tb_tail(e), (line, col)))
             else:
-                dev("in-range-" + api.bucket(e, m), "%s at %s" % (api.tb_tail(e), (line, col)))
+                dev(api.bucket(e, m), "%s at %s" % (api.tb_tail(e), (line, col)))
 
         for line, col in case["positions"]:
             where = classify_pos(text, line, col)
